@@ -576,7 +576,7 @@ func c16ErrClass(err error) string {
 // InvocationDataFromSource, BuildDataForAst) -> equal to the input.
 func c16EvalJSON(cs *c16Case, st *c16Stats) (out c16Outcome) {
 	defer c16Recover(&out)
-	paths := []string{cs.D.Dir}
+	paths := cs.D.mroPaths()
 	want, err := c16Expected(cs)
 	if err != nil {
 		return c16Outcome{Cat: "generator-bad-json", Detail: err.Error()}
@@ -592,6 +592,9 @@ func c16EvalJSON(cs *c16Case, st *c16Stats) (out c16Outcome) {
 		return c16Outcome{Cat: "rejected", Detail: "BuildCallSource: " + truncate(err.Error(), 300)}
 	}
 	out.Src = src
+	if os.Getenv("VERIF_C16_TRACE") != "" && cs.D.Layout == 4 {
+		fmt.Fprintf(os.Stderr, "C16TRACE layout4 paths=%v first=%q\n", paths, strings.SplitN(src, "\n", 2)[0])
+	}
 	_, _, ast, err := syntax.ParseSourceBytes([]byte(src), c16CallSrcPath(cs.D), paths, false)
 	if err != nil {
 		return c16Outcome{Cat: "not-compiling", Detail: "generated call text does not compile: " + truncate(err.Error(), 300), Src: src}
@@ -630,7 +633,7 @@ func c16EncodeLikeMrg(inv *core.InvocationData) ([]byte, error) {
 // compiled and the call statements compared with the own walker.
 func c16EvalMRO(cs *c16Case, st *c16Stats) (out c16Outcome) {
 	defer c16Recover(&out)
-	paths := []string{cs.D.Dir}
+	paths := cs.D.mroPaths()
 	text1 := cs.mroText()
 	_, _, ast1, err := syntax.ParseSourceBytes([]byte(text1), c16CallSrcPath(cs.D), paths, false)
 	if err != nil {
@@ -870,7 +873,7 @@ func c16RunMrg(c *vf.Ctx, mropath string, reverse bool, stdin string) (exit int,
 // mrgCheck: the mrg binary must agree with the API on the same input.
 func (cp *c16Campaign) mrgCheck(j c16MrgJob) {
 	c := cp.c
-	paths := []string{j.cs.D.Dir}
+	paths := j.cs.D.mroPaths()
 	c.Eval(1)
 	replay := map[string]interface{}{"defs": c16DefFiles(j.cs.D), "stdin": j.input, "direction": j.dir}
 	if j.dir == "forward" {
@@ -893,7 +896,7 @@ func (cp *c16Campaign) mrgCheck(j c16MrgJob) {
 			}
 			src = s
 		}()
-		exit, so, se, to := c16RunMrg(c, j.cs.D.Dir, false, j.input)
+		exit, so, se, to := c16RunMrg(c, strings.Join(j.cs.D.mroPaths(), ":"), false, j.input)
 		if to {
 			c.Inconclusive("mrg watchdog")
 			return
@@ -924,7 +927,7 @@ func (cp *c16Campaign) mrgCheck(j c16MrgJob) {
 		}
 		inv = v
 	}()
-	exit, so, se, to := c16RunMrg(c, j.cs.D.Dir, true, j.input)
+	exit, so, se, to := c16RunMrg(c, strings.Join(j.cs.D.mroPaths(), ":"), true, j.input)
 	if to {
 		c.Inconclusive("mrg watchdog")
 		return
@@ -980,7 +983,7 @@ func init() {
 					}
 					// the definition set itself must compile
 					probe := fmt.Sprintf("@include \"%s\"\n\nfiletype probeft;\n", d.Callables[0].File)
-					if _, _, _, err := syntax.ParseSourceBytes([]byte(probe), c16CallSrcPath(d), []string{d.Dir}, false); err != nil {
+					if _, _, _, err := syntax.ParseSourceBytes([]byte(probe), c16CallSrcPath(d), d.mroPaths(), false); err != nil {
 						cp.count("definition_sets_rejected_by_compiler", 1)
 						c.Set("definition_set_rejection_example", truncate(err.Error(), 300))
 						continue
@@ -1187,6 +1190,7 @@ func c16Pipestances(cp *c16Campaign) {
 				cfg.SrcFor = vrun.ProbeSrc(c.BuildDir)
 				p := pgen.Generate(seed, cfg)
 				emptyColls := false
+				relocate := ""
 				if i%5 == 3 {
 					// skeletons whose stages consume merged map-call outputs and
 					// projections; every second one with all run-time collections empty
@@ -1194,6 +1198,12 @@ func c16Pipestances(cp *c16Campaign) {
 					emptyColls = (i/5)%2 == 0
 					// definitions apart from the call, as mrp is normally given them
 					p.SplitIntoFiles("defs.mro")
+					if (i/5)%3 == 1 {
+						// the definitions in a sub directory of a second MROPATH
+						// entry whose name extends the first entry's
+						p.SplitIntoFiles("lib/defs.mro")
+						relocate = []string{"_v2", "-next", "22"}[(i/15)%3]
+					}
 				}
 				// three in four programs keep every callable in include files
 				// (the layout mrp is normally given: definitions apart from the call)
@@ -1217,6 +1227,10 @@ func c16Pipestances(cp *c16Campaign) {
 						s.LenChoices = []int{0}
 					}
 				})
+				if err == nil && relocate != "" {
+					err = vc.RelocateIncludes("lib", relocate)
+					cp.count("pipestances_with_prefix_related_mropath_entries", 1)
+				}
 				if err != nil {
 					c.Inconclusive("harness: cannot lay out pipestance case")
 					continue
@@ -1292,7 +1306,7 @@ func c16CheckPipestance(cp *c16Campaign, vc *vrun.Case, p *pgen.Program, seed in
 		var pout c16Outcome
 		func() {
 			defer c16Recover(&pout)
-			_, _, ast, perr = syntax.ParseSourceBytes(b, path, []string{vc.MroDir}, false)
+			_, _, ast, perr = syntax.ParseSourceBytes(b, path, vc.MroPaths(), false)
 		}()
 		if pout.Cat == "panic" {
 			c.Violate("C16:panic:"+pout.Site, "compiling a recorded _invocation panics: "+pout.Detail, replay(path, text, nil))
